@@ -1,0 +1,36 @@
+// Copyright (c) The Thanos Community Authors.
+// Licensed under the Apache License 2.0.
+
+//go:build verif
+
+package model
+
+import "math"
+
+// Simulator builds scribble over every buffer that is handed back to a pool:
+// whoever still reads it afterwards sees values no query can produce, in every
+// schedule, instead of stale data that happens to be still intact.
+const (
+	verifPoisonT  = math.MinInt64 + 4242
+	verifPoisonID = 1<<62 + 4242
+)
+
+var verifPoisonValue = math.Float64frombits(0x7ff8000000004242)
+
+func verifPoisonVectors(vector []StepVector) {
+	vector = vector[:cap(vector)]
+	for i := range vector {
+		vector[i] = StepVector{T: verifPoisonT}
+	}
+}
+
+func verifPoisonStepVector(v StepVector) {
+	ids := v.SampleIDs[:cap(v.SampleIDs)]
+	for i := range ids {
+		ids[i] = verifPoisonID
+	}
+	samples := v.Samples[:cap(v.Samples)]
+	for i := range samples {
+		samples[i] = verifPoisonValue
+	}
+}
